@@ -36,7 +36,8 @@ Inductive query :=
 | QGet (k : Z)
 | QContains (k : Z)
 | QDel (k : Z)
-| QClones (start : Z).      (* is_clone, get_clones(add_self=False), get_clones(add_self=True) *)
+| QClones (start : Z)       (* is_clone, get_clones(add_self=False), get_clones(add_self=True) *)
+| QName (start : Z).        (* node.name *)
 
 Record case := C {
   c_state : tstate;
@@ -94,6 +95,11 @@ Definition run_query (c : case) (q : query) : sx :=
   | QGet i => match gk i with Some k => sx_res sx_nat (getitem st k) | None => bad_ref end
   | QContains i => match gk i with Some k => sx_res sx_bool (contains st k) | None => bad_ref end
   | QDel i => match gk i with Some k => sx_res sx_ids (delitem st k) | None => bad_ref end
+  | QName s =>
+      match find_node (Z.to_nat s) f with
+      | Some n => L [A 0%Z; sx_text (i_name (rinfo n))]
+      | None => bad_ref
+      end
   | QClones s =>
       match find_node (Z.to_nat s) f with
       | Some n => L [ sx_res sx_bool (node_is_clone st n);
